@@ -7,6 +7,12 @@ LEAN_MODULES = ["ShootVerif.Props.C05"]
 USES_FACTS = False
 DRIVER = "shootmodel_map"
 
+MANIFEST = dict(
+    text="Lean 4 theorems over a model of the mapper's decision logic (field flattening, tag map, name matching, matchType/mayMisConv, mismatch-before-match pair loops against the two write-sets, statement lists): write-once as an invariant of the write-sets by induction over both pair loops (all inputs), closed form of the claim logs under unique name matching (C05_pairs), strategy = the property's priority list (C05_strategy), unmatched/incompatible never written, -way, tag/-i rules, round trip for identical-type pairs; 7 finding regions with witness theorems. Model tied to internal/mapper by generating src/dest package pairs, running the rebuilt `shoot map`, compiling and executing ToX/FromX on sentinel-filled values and decoding, per written leaf, the leaf it came from (plus per-leaf write counts and FromX(ToX(v))).",
+    note="Lean kernel + standard axioms; the correspondence (tools/vlib/mapgen.py + vo.ObserveMap + Lean driver shootmodel_map) ties the model to the code; go/types ConvertibleTo on the palette is re-implemented in the harness; acronym-casing theorems (smartMatch vs word segmentation) are not proved, the relation is checked by correspondence only.",
+    technique="Lean 4 proof (write-set invariant, two-phase fold closed form) + differential execution of generated mappers",
+    design="5/C05")
+
 KEYS_PREFIX = ("to:", "from:", "writes:", "compile", "exit", "rt:")
 DROP = ("to:nilrecv", "from:nilarg")
 
